@@ -115,3 +115,21 @@ var corpusDocs = []string{
 	"1\x00", "1\x002", "[1\x00]", "\x00", "\x001", " ", "", "\n", "1 2", "1,2", `"a""b"`, `{} {}`, `[][]`, `nullnull`, `1 x`, `truefalse`,
 	`{"a":1,"a":2}`, `{"":0}`, `[""]`, `"<script>&amp;"`, "\" \"", `{"<":">"}`,
 }
+
+// byteSweep: every byte value in every kind of position of a small document
+// (between tokens, inside a string, inside a number, a literal, a key, after
+// the value, in a skipped member).  256 x len(contexts) texts.
+var sweepContexts = []string{"%s", "%s1", "1%s", " %s ", "[1%s,2]", "[1,%s2]", "[%s]", "{\"a\"%s:1}", "{\"a\":%s1}", "{%s\"a\":1}",
+	"{\"a\":1%s}", "\"%s\"", "\"a%sb\"", "\"\\%s\"", "\"\\u00%s0\"", "1%s2", "-%s", "1.%s", "1e%s", "tru%s", "nul%sl", "{\"k%s\":1}",
+	"{\"x\":[%s],\"A\":1}", "{\"x\":\"%s\",\"A\":1}", "{\"x\":1%s,\"A\":1}", "[1,2]%s", "{}%s"}
+
+func byteSweep(f func([]byte)) {
+	for c := 0; c < 256; c++ {
+		for _, ctx := range sweepContexts {
+			i := strings.Index(ctx, "%s")
+			b := append([]byte(ctx[:i]), byte(c))
+			b = append(b, ctx[i+2:]...)
+			f(b)
+		}
+	}
+}
